@@ -55,7 +55,7 @@ pub fn unary(r: usize, c: usize, thorough: bool) -> Vec<Op> {
             }
         }
     }
-    // reshape: every factorisation of r*c, and three targets of the wrong size
+    // reshape: every factorisation of r*c, and targets of the wrong size (three larger, up to three smaller)
     let n = r * c;
     for i in 1..=n {
         if n % i == 0 {
@@ -64,6 +64,19 @@ pub fn unary(r: usize, c: usize, thorough: bool) -> Vec<Op> {
     }
     for (i, j) in [(r, c + 1), (r + 1, c), (1, n + 1)] {
         v.push(Op::new(K::Reshape).at(i, j));
+    }
+    // ... and targets with FEWER elements (a size check can be lost in one direction only)
+    if n >= 2 {
+        let mut small = vec![(1usize, n - 1)];
+        if c >= 2 {
+            small.push((r, c - 1));
+        }
+        if r >= 2 {
+            small.push((r - 1, c));
+        }
+        for (i, j) in small {
+            v.push(Op::new(K::Reshape).at(i, j));
+        }
     }
     // slice: every non-empty range pair
     for i in 0..r {
